@@ -147,6 +147,9 @@ func (x *Explorer) enter(fr *frame, from, b *ssa.BasicBlock) {
 	if general && x.Opts.LoopInvariants && lm != nil {
 		x.seedLoopInvariants(fr, b, lm, newPhi)
 	}
+	if general && lm != nil && from != nil {
+		x.seedStrideInvariants(fr, b, lm, from, newPhi)
+	}
 	// parallel assignment
 	for k, t := range newPhi {
 		x.setEnv(fr, b.Instrs[k].(*ssa.Phi), t)
@@ -862,6 +865,14 @@ func (x *Explorer) constLoopTest(fr *frame, b, from *ssa.BasicBlock) bool {
 	default:
 		return false
 	}
+	constTerm := func(t *Term) bool {
+		if t.IsConst() {
+			return true
+		}
+		lo, hasLo := x.lower(t)
+		hi, hasHi := x.upper(t)
+		return hasLo && hasHi && lo == hi // pinned by the facts of the path (len(p) after a successful read(n))
+	}
 	isConstHere := func(v ssa.Value) bool {
 		switch v := v.(type) {
 		case *ssa.Const:
@@ -872,7 +883,7 @@ func (x *Explorer) constLoopTest(fr *frame, b, from *ssa.BasicBlock) bool {
 			}
 			for k, p := range b.Preds {
 				if p == from {
-					return x.eval(fr, v.Edges[k]).IsConst()
+					return constTerm(x.eval(fr, v.Edges[k]))
 				}
 			}
 			return false
@@ -881,7 +892,7 @@ func (x *Explorer) constLoopTest(fr *frame, b, from *ssa.BasicBlock) bool {
 				if _, isC := v.Y.(*ssa.Const); isC {
 					for k, p := range b.Preds {
 						if p == from {
-							return x.eval(fr, phi.Edges[k]).IsConst()
+							return constTerm(x.eval(fr, phi.Edges[k]))
 						}
 					}
 				}
@@ -905,7 +916,52 @@ func (x *Explorer) constLoopTest(fr *frame, b, from *ssa.BasicBlock) bool {
 				return false
 			}
 		}
-		return x.eval(fr, v).IsConst()
+		return constTerm(x.eval(fr, v))
 	}
 	return isConstHere(cmp.X) && isConstHere(cmp.Y)
+}
+
+// seedStrideInvariants: a slice cursor whose every back edge is cur[W:] for
+// one constant W > 1 and whose length on entry is a multiple of W keeps a
+// length that is a multiple of W (len - W is one again): the loop
+// `for words := b[:n]; len(words) > 0; words = words[W:]` with n = (len(b)/W)*W
+// then has len(words) >= W inside.
+func (x *Explorer) seedStrideInvariants(fr *frame, b *ssa.BasicBlock, lm *loopMod, from *ssa.BasicBlock, newPhi []*Term) {
+	for k, t := range newPhi {
+		phi := b.Instrs[k].(*ssa.Phi)
+		if _, isSl := phi.Type().Underlying().(*types.Slice); !isSl {
+			continue
+		}
+		stride := int64(0)
+		good := true
+		var entry []ssa.Value
+		for i, e := range phi.Edges {
+			if !lm.body[b.Preds[i]] {
+				entry = append(entry, e)
+				continue
+			}
+			sl, isS := e.(*ssa.Slice)
+			if !isS || sl.X != ssa.Value(phi) || sl.High != nil || sl.Max != nil {
+				good = false
+				break
+			}
+			c, isC := sl.Low.(*ssa.Const)
+			if !isC || c.Value == nil || c.Int64() <= 1 || (stride != 0 && stride != c.Int64()) {
+				good = false
+				break
+			}
+			stride = c.Int64()
+		}
+		if !good || stride == 0 || len(entry) == 0 {
+			continue
+		}
+		for _, e := range entry {
+			if !x.MultipleOf(x.Len(x.eval(fr, e)), stride) {
+				good = false
+			}
+		}
+		if good {
+			x.AssumeMultiple(x.Len(t), stride)
+		}
+	}
 }
